@@ -1051,6 +1051,10 @@ class _ClassBuilder:
             if hash_caching_enabled:
                 __bound_setattr(_HASH_CACHE_FIELD, None)
 
+        # Subclasses that would otherwise inherit this pair must get their own:
+        # it only knows the attributes of this class.
+        slots_getstate.__attrs_generated__ = True
+
         return slots_getstate, slots_setstate
 
     def make_unhashable(self):
@@ -1451,7 +1455,7 @@ def attrs(
                 getstate_setstate,
                 auto_detect,
                 ("__getstate__", "__setstate__"),
-                default=slots,
+                default=slots or _inherits_attrs_getstate(cls),
             ),
             auto_attribs,
             kw_only,
@@ -1550,6 +1554,16 @@ _attrs = attrs
 Internal alias so we can use it in functions that take an argument called
 *attrs*.
 """
+
+
+def _inherits_attrs_getstate(cls):
+    """
+    Check whether *cls* would inherit an attrs-generated ``__getstate__``,
+    which only saves and restores the attributes of the class it was made for.
+    """
+    return getattr(
+        getattr(cls, "__getstate__", None), "__attrs_generated__", False
+    )
 
 
 def _has_frozen_base_class(cls):
